@@ -8,9 +8,9 @@ CLI_PROPS = {"C13", "C14", "C15", "C16", "C17", "C18", "C19", "C20"}
 
 # which sources feed which property (order = order of execution)
 PLAN = {
-    "C01": ["exprparens", "trivia", "calls", "nest", "types", "corpus"],
-    "C02": ["exprparens", "trivia", "calls", "nest", "types", "corpus"],
-    "C03": ["trivia", "corpus"],
+    "C01": ["exprparens", "trivia", "calls", "nest", "types", "block", "strings", "literals", "corpus"],
+    "C02": ["exprparens", "trivia", "calls", "nest", "types", "block", "corpus"],
+    "C03": ["trivia", "block", "corpus"],
     "C04": ["strings", "literals", "corpus"],
     "C05": ["exprparens"],
     "C08": ["block", "corpus"],
@@ -18,8 +18,8 @@ PLAN = {
     "C11": ["calls", "strings", "corpus"],
     "C12": ["sortrequires", "corpus"],
     "C10": ["layout", "trivia", "corpus"],
-    "C06": ["exprparens", "trivia", "calls", "nest", "types", "corpus"],
-    "C07": ["nest", "exprparens", "trivia", "calls", "corpus"],
+    "C06": ["exprparens", "trivia", "calls", "nest", "types", "block", "sortrequires", "corpus"],
+    "C07": ["nest", "exprparens", "trivia", "calls", "block", "strings", "literals", "corpus"],
 }
 
 LUAU_CTX = {"compound", "ifexp_then", "ifexp_else"}
@@ -121,11 +121,12 @@ def src_layout(tier, seed):
     raw.sort(key=lambda c: json.dumps(c, sort_keys=True))
     cases = []
     lays = [("crlf", "space2"), ("mixed", "mixed")] if tier == "quick" else [("crlf", "space2"), ("mixed", "mixed"), ("lf", "space3"), ("crlf", "tab")]
+    lays = [l + (0,) for l in lays] + [("lf", "tab", 2)]
     for i, c in enumerate(raw):
-        for (eol, ind) in lays:
+        for (eol, ind, blank) in lays:
             d = json.loads(json.dumps(c))
-            d["id"] = "ly%d:%s:%s" % (i, eol, ind)
-            d["layout"].update({"profile": "spaced", "eol": eol, "indent": ind})
+            d["id"] = "ly%d:%s:%s:%d" % (i, eol, ind, blank)
+            d["layout"].update({"profile": "spaced", "eol": eol, "indent": ind, "blank": blank, "lead_blank": blank})
             d["meta"]["src"] = "Layout"
             d["sweep"] = {"line_endings": ["Unix", "Windows"], "indent_type": ["Tabs", "Spaces"],
                           "indent_width": [1, 2, 3, 4, 8] if tier == "quick" else [1, 2, 3, 4, 5, 6, 7, 8, 16],
@@ -142,7 +143,7 @@ def _block_cases(cfgname, name, prefix, extra_sweep=None):
     for i, c in enumerate(raw):
         c["id"] = "%s%d" % (prefix, i)
         c["sweep"] = dict(extra_sweep or {"column_width": [120, 12]})
-        c["want"] = ["stmts", "lines"]
+        c["want"] = ["stmts", "lines", "reformat"]
         cases.append(c)
     return cases, st
 
@@ -162,7 +163,7 @@ def src_sortrequires(tier, seed):
     for i, c in enumerate(raw):
         c["id"] = "sr%d" % i
         c["sweep"] = {"sort_requires": [True, False]}
-        c["want"] = ["sort"]
+        c["want"] = ["sort", "reformat"]
         cases.append(c)
     return cases, st
 
